@@ -74,6 +74,8 @@ fn mk_key(i: usize, k3name: &str) -> Key {
         0 => Key::from_parts("m", vec![Label::new("a", "1"), Label::new("b", "2")]),
         1 => Key::from_static_parts("m", &L_AB),
         2 => Key::from_parts(String::from("m"), vec![Label::new("a", "1")]),
+        // equal to k1 again, derived from an already hashed base key
+        4 => Key::from_parts("m", vec![Label::new("a", "1")]).with_extra_labels(vec![Label::new("b", "2")]),
         _ => Key::from_name(k3name.to_string()),
     }
 }
@@ -96,13 +98,13 @@ fn find_k3() -> String {
 fn alphabet() -> Vec<Op> {
     use Kind::*;
     let mut a = Vec::new();
-    for (k, keys) in [(C, vec![0, 1, 2, 3]), (G, vec![0, 2]), (H, vec![1])] {
+    for (k, keys) in [(C, vec![0, 1, 2, 3, 4]), (G, vec![0, 2]), (H, vec![1])] {
         for i in keys {
             a.push(Op::Goc(k, i));
         }
     }
     a.extend([Op::Get(C, 1), Op::Get(C, 2), Op::Get(G, 0), Op::Get(H, 0)]);
-    a.extend([Op::Del(C, 0), Op::Del(C, 1), Op::Del(C, 3), Op::Del(G, 1), Op::Del(H, 0)]);
+    a.extend([Op::Del(C, 0), Op::Del(C, 4), Op::Del(C, 3), Op::Del(G, 1), Op::Del(H, 0)]);
     a.extend([Op::Retain(C, Pred::KeepK1), Op::Retain(C, Pred::DropAll), Op::Retain(G, Pred::DropAll), Op::Retain(H, Pred::KeepK1)]);
     a.push(Op::Clear);
     a.extend([Op::Visit(C), Op::Visit(G), Op::Visit(H), Op::Handles(C), Op::Handles(G), Op::Handles(H)]);
@@ -492,7 +494,7 @@ fn main() {
     driver::main(CheckDef {
         prop: "C06",
         level: "model_checking",
-        rule: "E3: every sequence up to the stated depth over 29 operations (get_or_create / get / delete / retain / clear / visit / get_*_handles over kinds x keys {k1, k1' = equal key built statically with permuted labels, k2, k3 = same shard}) on a fresh real Registry with a construction-counting Storage, compared after every step with a map reference (results, storage identity, construction count, both listings); shard counts 1, 2, 16 via CPU affinity; E1: all SC interleavings (pb-bounded) of 3 threads x 2 ops, brute-force linearizability against the same reference; distinct = distinct reference states / outcomes",
+        rule: "E3: every sequence up to the stated depth over 28 operations (get_or_create / get / delete / retain / clear / visit / get_*_handles over kinds x keys {k1, k1' = equal key built statically with permuted labels, k2, k3 = same shard}) on a fresh real Registry with a construction-counting Storage, compared after every step with a map reference (results, storage identity, construction count, both listings); shard counts 1, 2, 16 via CPU affinity; E1: all SC interleavings (pb-bounded) of 3 threads x 2 ops, brute-force linearizability against the same reference; distinct = distinct reference states / outcomes",
         assumptions: &["E1: sequential consistency; lock release is not a scheduling point of its own (the next operation of the releasing thread is)", "keys with pairwise distinct label names"],
         parts,
         run,
